@@ -50,13 +50,13 @@ REAL_VS_STUB = {
                                 'warnings.showwarning', 'all user callbacks', 'GC timing'],
 }
 EXPECTED_PROBES = ('cb:is_leaf', 'cb:flatten_func', 'cb:unflatten_func', 'cb:map_fn', 'cb:key.__hash__', 'cb:key.__lt__',
-                   'cb:meta.__ne__', 'cb:meta.__repr__', 'cb:showwarning', 'cb:meta.__getattr__',
+                   'cb:meta.__ne__', 'cb:meta.__repr__', 'cb:showwarning', 'cb:meta.__getattr__', 't8:registration-failed-in-hook',
                    'lock:registry:acquire', 'lock:registry:contended', 'switch-inside-callback')
 # 'callback-entered-with-engine-lock-held' is reported as a counter; on a correct tree it stays 0 (it was 30 569 per
 # quick run before fix 414fcff)
 
 V = _C._verif if hasattr(_C, '_verif') else None
-TEMPLATES = ('T1', 'T2', 'T3', 'T4', 'T5', 'T6', 'T7')
+TEMPLATES = ('T1', 'T2', 'T3', 'T4', 'T5', 'T6', 'T7', 'T8')
 PKG_PREFIX = os.path.dirname(optree.__file__) + os.sep
 REGMOD = optree.registry
 
@@ -554,6 +554,94 @@ def tpl_T3(sim, tape, viol, keys, desc, cb, job):
         if current['f'] is not None:
             optree.unregister_pytree_node(cls, namespace=ns)
         others.unregister_all()
+    return {'cleanup': cleanup}
+
+
+# -------------------------------------------------------------------------------------------------- T8
+class FailingHook(Exception):
+    pass
+
+
+def tpl_T8(sim, tape, viol, keys, desc, cb, job):
+    """A registration that FAILS in a user hook it reaches (the warning hook of a namedtuple / struct-sequence class)
+    || flattens of instances of that very class.  The registration never completes, so every sequential order of the
+    operations shows the class as what it was before (a namedtuple node): an overlapping flatten that sees a custom node
+    saw a registration that never happened."""
+    ns = 'ns'
+    fresh = type('FreshNT8', (collections.namedtuple('FreshNT8Base', ['p', 'q']),), {'__slots__': ()})
+    which = tape.draw(3, 't8-class')
+    cls = (fresh, U.NTM, U.STRUCTSEQ_TYPES[0])[which]
+    inst = cls(U.Leaf(1), [U.Leaf(2)]) if which < 2 else U.make_structseq([U.Leaf(i) for i in range(9)])
+    want_kind = optree.tree_structure(inst, namespace=ns).kind
+    f = U.Funcs(cls, 1, tape.draw(4, 'style'))
+    attempts = 1 + tape.draw(2, 't8-attempts')
+    outcomes = []
+    seen = []
+    old_show = warnings.showwarning
+
+    def failing_show(message, category, filename, lineno, file=None, line=None):
+        with sim.callback():
+            sim.point('cb:showwarning')
+        raise FailingHook('the warning hook refuses')
+
+    def registrar(task):
+        for _ in range(attempts):
+            warnings.showwarning = failing_show
+            try:
+                optree.register_pytree_node(cls, f.flatten, f.unflatten, namespace=ns)
+                outcomes.append('ok')
+            except FailingHook:
+                outcomes.append('failed')
+            except BaseException as e:  # noqa: BLE001
+                outcomes.append('other:%s' % type(e).__name__)
+            finally:
+                warnings.showwarning = old_show
+
+    def flattener(i):
+        how = tape.draw(3, 't8-how')
+
+        def body(task):
+            for _ in range(2 + attempts):
+                try:
+                    if how == 0:
+                        k = optree.tree_structure(inst, namespace=ns).kind
+                    elif how == 1:
+                        k = optree.tree_flatten_with_path([inst], namespace=ns)[2].child(0).kind
+                    else:
+                        h = optree.register_pytree_node.get(cls, namespace=ns)
+                        k = h.kind if h is not None else None
+                    seen.append((how, k, f.flatten_calls))
+                except BaseException as e:  # noqa: BLE001
+                    seen.append((how, 'raised %s: %s' % (type(e).__name__, e), f.flatten_calls))
+                sim.point('t8:between')
+        return body
+
+    set_policy(sim, tape, job)
+    sim.spawn('registrar', registrar)
+    for i in range(1 + tape.draw(2, 't8-flatteners')):
+        sim.spawn('flatten%d' % i, flattener(i))
+    desc.update({'class': cls.__name__, 'attempts': attempts})
+    U.HOOK = cb
+    sim.run()
+    U.HOOK = None
+    registered = 'ok' in outcomes
+    if sim.deadlock is None and not sim.engine_blocks:
+        sim.probes['t8:registration-failed-in-hook'] += outcomes.count('failed')
+        for o in outcomes:
+            if o.startswith('other'):
+                viol('not-sequential', 'T8:register', 'a registration whose warning hook raises ended with %s instead of the hook\'s own exception' % o)
+        if not registered:
+            for how, k, calls in seen:
+                if k != want_kind or calls:
+                    viol('torn', 'T8:flatten', 'a flatten / lookup overlapping a registration that FAILED saw %s (custom flatten calls so far: %d); '
+                         'before and after the failed call the class is a %s node' % (k, calls, want_kind))
+                    break
+            if optree.tree_structure(inst, namespace=ns).kind != want_kind or f.flatten_calls:
+                viol('not-atomic', 'T8:final', 'after the failed registration the class is no longer a %s node' % want_kind)
+
+    def cleanup():
+        if registered:
+            optree.unregister_pytree_node(cls, namespace=ns)
     return {'cleanup': cleanup}
 
 
